@@ -109,6 +109,19 @@ def run_exp(ctx, rep):
     check_log2floor(fx, rep)
 
 
+def run_linear(ctx, rep):
+    """the linear formulas alone, among them the calldata token count, the intrinsic gas per fork
+    and the EIP-7623 floor (C02 includes it: a transaction is accepted iff its gas limit covers them)"""
+    fx = ctx.facts('default')
+    si = SpecInfo(fx)
+    if not si.ok:
+        for p in si.problems:
+            rep.undecided('spec-map', 'extract', p)
+        return
+    specs = [s for s in REF_ORDER if s in si.discr]
+    check_linear(fx, rep, si, specs)
+
+
 def check_log2floor(fx, rep):
     """R2b: log2floor(v) = floor(log2 v) for every non-zero v.  The loop over the four limbs has a
     constant counter and unrolls completely; the result depends on v only through which limb is the
